@@ -35,7 +35,10 @@ def count_leaves(report):
 
 def obs_from_report(rep):
     st = obs.report_statuses(rep)
-    return {"rules": {obs.strip_default(k): "+".join(sorted(v)) for k, v in st.items()}, "file": rep.get("status")}
+    merged = {}
+    for k, v in st.items():
+        merged.setdefault(obs.strip_default(k), []).extend(v)      # default rules of several rules files all map to "default"
+    return {"rules": {k: "+".join(sorted(v)) for k, v in merged.items()}, "file": rep.get("status")}
 
 
 def parse_summary_table(out):
@@ -143,9 +146,13 @@ def check_multi(ctx, texts, dtexts, zp=None):
         IT = ["-i", "{S}/params/p.json"]
         texts = [texts[0] + "rule zp_rule {\n    zp == %s\n}\n" % gen.glit(zp)] + list(texts[1:])
         ctx.res.counts["multi_groups_with_input_parameters"] += 1
+    # rules files either have distinct names or share one base name in different directories (still different files)
+    same_base = len(json.dumps(texts)) % 2 == 0
     for i, tx in enumerate(texts):
-        fl["r%d.guard" % i] = tx
-        R += ["-r", "{S}/r%d.guard" % i]
+        rel = ("rules%d/policy.guard" % i) if same_base else ("r%d.guard" % i)
+        fl[rel] = tx
+        R += ["-r", "{S}/" + rel]
+    ctx.res.counts["multi_groups_same_base_name" if same_base else "multi_groups_distinct_names"] += 1
     for i, dx in enumerate(dtexts):
         fl["d%d.json" % i] = dx
         D += ["-d", "{S}/d%d.json" % i]
@@ -205,8 +212,13 @@ def check_multi(ctx, texts, dtexts, zp=None):
             except ValueError:
                 ctx.violation("%s:malformed" % cfg, "payload structured output malformed", dict(case, cfg=cfg))
                 continue
-            a = sorted(json.dumps(obs_from_report(x), sort_keys=True) for x in reps)
-            b = sorted(json.dumps(obs_from_report(x), sort_keys=True) for x in preps)
+            def as_sets(x):
+                # rules files of one base name share the name of their default rule (and compliant / not_applicable are name sets by design),
+                # payload entries are named RULES_STDIN[n]: compare per rule name the set of statuses
+                o_ = obs_from_report(x)
+                return json.dumps({"file": o_["file"], "rules": {k: sorted(set(v.split("+"))) for k, v in o_["rules"].items()}}, sort_keys=True)
+            a = sorted(as_sets(x) for x in reps)
+            b = sorted(as_sets(x) for x in preps)
             if a != b:
                 ctx.violation("%s:reports" % cfg, "per-data-file verdicts differ between files and payload entry points", dict(case, cfg=cfg))
         if zp is not None and cfg in ("multi:plain", "multi:payload-plain"):
